@@ -81,12 +81,15 @@ class World:
                 self.pep_cache[vtext] = pep440.canonical(vtext).replace(".dev", "dev").replace(".post", "post")
         return self.pep_cache[vtext]
 
-    def expected_text(self, path, state, vtext, initial=False):
+    def expected_text(self, path, state, vtext, initial=False, override=None):
+        """override: {(path, region): state} - render those slots from another (stale) state"""
         out = []
         for line in self.files[path]:
             for seg in line["segs"]:
                 if isinstance(seg, str):
                     out.append(seg)
+                elif override and (path, seg["slot"]) in override:
+                    out.append(region_text(seg["slot"], self.vtree, override[(path, seg["slot"])], vtext))
                 elif initial and seg["slot"] == "{pep440_version}":
                     out.append(self.pep_initial(vtext))
                 else:
@@ -94,20 +97,20 @@ class World:
             out.append(line["end"])
         return "".join(out)
 
-    def expected_tree(self, state, vtext, initial=False):
+    def expected_tree(self, state, vtext, initial=False, override=None):
         tree = {}
         for path in self.files:
-            tree[path] = self.expected_text(path, state, vtext, initial).encode("utf-8")
+            tree[path] = self.expected_text(path, state, vtext, initial, override).encode("utf-8")
         for path, text in self.project.get("extra", {}).items():
             if path not in tree:
                 tree[path] = text.encode("utf-8")
         return tree
 
-    def materialise(self, state=None, vtext=None):
+    def materialise(self, state=None, vtext=None, override=None):
         state = state if state is not None else self.project["state"]
         vtext = vtext if vtext is not None else rp.render(self.vtree, state)
         self.dir = invoker.new_dir("w")
-        invoker.write_tree(self.dir, self.expected_tree(state, vtext, initial=True))
+        invoker.write_tree(self.dir, self.expected_tree(state, vtext, initial=True, override=override))
         spec = self.project.get("vcs")
         if spec:
             os.mkdir(os.path.join(self.dir, ".git" if spec["personality"] == "git" else ".hg"))
